@@ -44,11 +44,21 @@ def make_csv(path, variant):
             if variant == "one":
                 w.writerow([r[0], base])
             else:
+                # both columns: an interlaced source (so that the field order decides which lines go where); the second
+                # column differs in what is signalled only or changes the coding only - quantisation matrix, field order,
+                # frame rate - so anything one configuration's generation leaves behind in the process meets a sibling
+                # that is as similar as possible
                 second = base
-                if key == "name":
+                if key == "source_sampling":
+                    base = second = "interlaced"
+                elif key == "name":
                     second = "minimal-qm"
                 elif key == "quantization_matrix":
                     second = "0 3 3 6"
+                elif key == "top_field_first":
+                    second = "FALSE"
+                elif key == "frame_rate_numer":
+                    second = "2"
                 w.writerow([r[0], base, second])
 
 
@@ -175,7 +185,8 @@ class Prop(object):
     id = "C24"
     lean_modules = ["VC2.Props.C24", "VC2.Props.C24Paths"]
     status = "partial"
-    rule = ("the REAL vc2-test-case-generator on a two-column codec-features CSV (the minimal configuration and an adjacent lossy column differing only in its quantisation matrix): "
+    rule = ("the REAL vc2-test-case-generator on a two-column codec-features CSV (the minimal configuration with an interlaced source and an adjacent lossy column differing only in its "
+            "quantisation matrix, field order and frame rate): "
             "one serial run in one process vs the emitted --parallel worker commands each in its own process, in shuffled order, 14 at a time, every process under a different "
             "PYTHONHASHSEED; the two output trees are compared byte for byte; every worker's file writes are traced (open() wrapped in-process) to check that no two commands write the "
             "same path and that every file is attributed; thorough: a second round with other seeds/order and the single-column CSV")
